@@ -1102,9 +1102,15 @@ async fn run(_tier: Tier) {
         exec.spawn("setup-failer".to_string(), async move {
             // (Every third of them is gone before the server even accepts
             // it: accept() itself reports the error.)
-            let planner: Arc<dyn Fn(usize) -> ConnectPlan + Send + Sync> = Arc::new(|i| ConnectPlan {
-                fail_setup: i % 3 != 2,
+            // Some set-ups hang for a while (up to 20 s, far longer than any
+            // client's patience) before they fail or go through: meanwhile
+            // the server has to go on accepting and serving everybody else.
+            let slow = sim::chance("setup_failer.slow", 1, 2);
+            let delays: Vec<u64> = (0..16).map(|_| if slow { *sim::pick("setup_failer.delay_ms", &[0u64, 0, 30, 900, 20_000]) } else { 0 }).collect();
+            let planner: Arc<dyn Fn(usize) -> ConnectPlan + Send + Sync> = Arc::new(move |i| ConnectPlan {
+                fail_setup: i % 3 != 2 && i % 5 != 4,
                 accept_error: i % 3 == 2,
+                setup_delay_ms: delays[i % 16],
                 ..Default::default()
             });
             let c = l2.connector(addr(99, 7000), planner);
